@@ -1118,6 +1118,9 @@ class C19Reference(C19World):
                     pass
 
 
+_REF_STEPS = {}
+
+
 def run_c19(spec):
     from ..choices import Choices, derive_seed
     from .common import build_choices, execute_world, finish
@@ -1125,12 +1128,19 @@ def run_c19(spec):
     spec["seed_int"] = derive_seed(spec.get("seed", 0), spec["property"], spec.get("run", 0)) & 0xFFFFFFFF
     ch, cfg, ops = build_choices(spec, gen_c19)
     if "close_k" not in cfg:
-        # reference execution: how many scheduler steps does this scenario take?
-        ref_ch = Choices(seed=spec["seed_int"], record=False)
-        ref, h = execute_world(C19Reference, dict(spec, close_k=None), ref_ch, cfg, ops)
-        n = getattr(ref, "ref_steps", None)
-        if h or n is None:
-            return {"verdict": "harness_error", "detail": "reference run failed: %r" % (h,)}
+        # reference execution: how many scheduler steps does this scenario take?  (a function of the scenario
+        # alone - its scheduler choices are seeded by the scenario index - so it is measured once per process)
+        key = (spec.get("seed", 0), cfg["scenario"])
+        n = _REF_STEPS.get(key)
+        if n is None:
+            ref_ch = Choices(seed=derive_seed(spec.get("seed", 0), "C19-reference", cfg["scenario"]), record=False)
+            ref, h = execute_world(C19Reference, dict(spec, close_k=None), ref_ch, cfg, ops)
+            n = getattr(ref, "ref_steps", None)
+            if h or n is None:
+                return {"verdict": "harness_error", "detail": "reference run failed: %r" % (h,)}
+            if len(_REF_STEPS) > 500:
+                _REF_STEPS.clear()
+            _REF_STEPS[key] = n
         cfg["ref_steps"] = n
         cfg["close_k"] = int(cfg["close_frac"] * n)
     spec["close_k"] = cfg["close_k"]
@@ -1145,7 +1155,8 @@ def c19_reference_steps(spec):
     spec = dict(spec, run=0)
     spec["seed_int"] = derive_seed(spec.get("seed", 0), spec["property"], 0) & 0xFFFFFFFF
     ch, cfg, ops = build_choices(spec, gen_c19)
-    ref, h = execute_world(C19Reference, dict(spec, close_k=None), Choices(seed=spec["seed_int"], record=False), cfg, ops)
+    ref, h = execute_world(C19Reference, dict(spec, close_k=None),
+                           Choices(seed=derive_seed(spec.get("seed", 0), "C19-reference", cfg["scenario"]), record=False), cfg, ops)
     return getattr(ref, "ref_steps", None)
 
 
